@@ -10,6 +10,8 @@
 #include "core_timing.h"
 #include "crash.h"
 #include "timer.h"
+#include "register.h"
+#include "teakra/teakra.h"
 
 namespace {
 
@@ -388,6 +390,118 @@ rc::Gen<POp> genPOp() {
     });
 }
 
+// ---- both timers behind the facade: MMIO wiring of the configuration word, the idle loop's fast-forward, the ICU lines -----------
+struct FOp {
+    int kind = 0; // 0 write start, 1 write configuration, 2 event write, 3 run
+    unsigned which = 0;
+    uint64_t a = 0;
+};
+using FCase = std::vector<FOp>;
+std::string fencode(const FCase& c) {
+    std::string s;
+    for (auto& op : c)
+        s += "f " + vf::hex(op.kind) + " " + vf::hex(op.which) + " " + vf::hex(op.a) + "\n";
+    return s;
+}
+FCase fdecode(const std::string& text) {
+    FCase c;
+    for (auto& l : vf::lines(text)) {
+        auto t = vf::split_ws(l);
+        if (t.size() < 4 || t[0] != "f")
+            continue;
+        FOp op;
+        op.kind = (int)(vf::unhex(t[1]) % 4);
+        op.which = (unsigned)vf::unhex(t[2]) & 1;
+        op.a = vf::unhex(t[3]);
+        c.push_back(op);
+    }
+    return c;
+}
+vf::Result fcheck(const FCase& cs) {
+    static Teakra::Teakra* inst = new Teakra::Teakra(Teakra::UserConfig{});
+    Teakra::Teakra& t = *inst;
+    t.Reset();
+    t.ProgramWrite(0, 0x57F0); // brr -1: the DSP idles
+    t.GetRegisterState().pc = 0;
+    t.MMIOWrite(0x20, 0);
+    t.MMIOWrite(0x30, 0);
+    model::Timer m[2];
+    std::string trace;
+    bool nontrivial = false;
+    auto fail = [&](const std::string& sig, const std::string& what, size_t i) {
+        return vf::Result::fail(sig, what + " at op " + std::to_string(i) + " (" + trace + ")");
+    };
+    for (size_t i = 0; i < cs.size(); ++i) {
+        const FOp& op = cs[i];
+        const uint16_t base = (uint16_t)(0x20 + 0x10 * op.which);
+        model::Timer& T = m[op.which];
+        uint64_t irq0[2] = {m[0].irqs, m[1].irqs};
+        t.MMIOWrite(0x202, 0x0600); // acknowledge both timer lines
+        switch (op.kind) {
+        case 0: {
+            uint32_t v = (uint32_t)(op.a % 5 == 0 ? op.a % 0x30000 : op.a % 300);
+            t.MMIOWrite(base + 4, (uint16_t)v);
+            t.MMIOWrite(base + 6, (uint16_t)(v >> 16));
+            T.start = v;
+            trace += "start" + std::to_string(op.which) + "=" + vf::hex(v) + " ";
+            break;
+        }
+        case 1: { // configuration word: count mode, pause, restart strobe; MU stays on so that the counter can be read back
+            unsigned cm = (unsigned)(op.a % 4), pc = (op.a >> 2) % 8 == 0, res = (op.a >> 5) % 3 != 0;
+            t.MMIOWrite(base, (uint16_t)((cm << 2) | (pc << 8) | 0x0200 | (res << 10)));
+            T.mode = cm;
+            T.pause = pc;
+            T.mu = true;
+            if (res && cm != model::Timer::FreeRunning) {
+                T.counter = T.start;
+                T.moved();
+            }
+            trace += "cfg" + std::to_string(op.which) + "(cm" + std::to_string(cm) + (pc ? ",pause" : "") + (res ? ",res" : "") + ") ";
+            break;
+        }
+        case 2:
+            t.MMIOWrite(base + 2, 1);
+            T.tick_event();
+            trace += "event" + std::to_string(op.which) + " ";
+            break;
+        default: {
+            unsigned n = (unsigned)(op.a % 3 == 0 ? 1 + op.a % 8 : 1 + op.a % 700);
+            t.Run(n);
+            for (unsigned k = 0; k < n; ++k) {
+                m[0].tick();
+                m[1].tick();
+            }
+            trace += "run(" + std::to_string(n) + ") ";
+            nontrivial = true;
+            break;
+        }
+        }
+        uint16_t pending = t.MMIORead(0x200);
+        for (unsigned w = 0; w < 2; ++w) {
+            uint16_t b = (uint16_t)(0x20 + 0x10 * w);
+            uint32_t counter = t.MMIORead(b + 8) | ((uint32_t)t.MMIORead(b + 10) << 16);
+            if (m[w].mu && counter != m[w].counter && !(m[w].mode == model::Timer::FreeRunning && op.kind == 1 && op.which == w))
+                return fail("C15:facade:counter:timer" + std::to_string(w), "timer " + std::to_string(w) + " reads back " + vf::hex(counter) + " but must be at " +
+                                                                                 vf::hex(m[w].counter), i);
+            if (m[w].mode == model::Timer::FreeRunning && op.kind == 1 && op.which == w && m[w].mu)
+                m[w].counter = counter; // a restart in free-running mode is outside the statement: follow the implementation
+            bool irq = (pending >> (w == 0 ? 0xA : 0x9)) & 1;
+            if (irq != (m[w].irqs != irq0[w]))
+                return fail("C15:facade:irq:timer" + std::to_string(w), "timer " + std::to_string(w) + (irq ? " raised its interrupt although its counter did not go from 1 to 0"
+                                                                                                           : " did not raise its interrupt although its counter went from 1 to 0"), i);
+        }
+    }
+    vf::klass("facade: timers through MMIO");
+    vf::note(vf::hash_str(fencode(cs)), nontrivial);
+    return vf::Result::pass();
+}
+rc::Gen<FCase> genFCase() {
+    using namespace rc;
+    auto opGen = gen::map(gen::tuple(gen::weightedElement<int>({{3, 0}, {4, 1}, {1, 2}, {5, 3}}), vf::range<unsigned>(0, 2), gen::resize(100, gen::arbitrary<uint64_t>())),
+                          [](std::tuple<int, unsigned, uint64_t> p) { return FOp{std::get<0>(p), std::get<1>(p), std::get<2>(p)}; });
+    return gen::container<FCase>(opGen);
+}
+
 } // namespace
 
 int main(int argc, char** argv) {
@@ -411,5 +525,15 @@ int main(int argc, char** argv) {
     q.max_size = 40;
     q.share = 0.2;
     vf::run(q);
+
+    vf::Property<FCase> f;
+    f.name = "timer_facade";
+    f.gen = genFCase;
+    f.check = fcheck;
+    f.encode = fencode;
+    f.decode = fdecode;
+    f.max_size = 40;
+    f.share = 0.02;
+    vf::run(f);
     return vf::finish();
 }
